@@ -282,3 +282,7 @@ UNITS = [Unit("negra", gen_negra, check_negra, shards=(2, 8)),
          Unit("rules", gen_rules, check_rules, shards=(2, 8)),
          Unit("rules_random", gen_rules_random, check_rules, shards=(1, 4)),
          Unit("invalid", gen_invalid, check_invalid, shards=(1, 1))]
+
+
+from vlib import clidiff
+UNITS.append(clidiff.unit("C15"))
